@@ -43,6 +43,7 @@ static coap_context_t *g_cli, *g_srv;
 static coap_endpoint_t *g_ep;
 static coap_session_t *g_cs;       /* client session (NULL before C / after rel) */
 static coap_session_t *g_ss;       /* the server session for the client's address */
+static coap_session_t *g_ss_dying; /* ... while it is being freed (events of coap_session_mfree) */
 static coap_address_t g_caddr;     /* client local address */
 static int g_have_caddr;
 static int g_dtls;
@@ -148,7 +149,7 @@ static const coap_dtls_spsk_info_t *cb_sni(const char *sni, coap_session_t *s, v
 /* ------------------------------------------------------------------ names */
 static const char *sname(const coap_session_t *s) {
   if (s && s->type == COAP_SESSION_TYPE_CLIENT) return "c";
-  if (s && s == g_ss) return "s";
+  if (s && (s == g_ss || s == g_ss_dying)) return "s";
   return "o";
 }
 
@@ -191,11 +192,15 @@ static int on_event_c(coap_session_t *s, coap_event_t e) {
 }
 
 static int on_event_s(coap_session_t *s, coap_event_t e) {
+  if (e == COAP_EVENT_SERVER_SESSION_NEW) g_ss_dying = NULL;
   if (e == COAP_EVENT_SERVER_SESSION_NEW && g_have_caddr && !g_ss &&
       coap_address_equals(&s->addr_info.remote, &g_caddr))
     g_ss = s;
   tg_emit("%s.ev:%04x", sname(s), (unsigned)e);
-  if (e == COAP_EVENT_SERVER_SESSION_DEL && s == g_ss) g_ss = NULL;
+  if (e == COAP_EVENT_SERVER_SESSION_DEL && s == g_ss) {
+    g_ss_dying = s;
+    g_ss = NULL;
+  }
   return 0;
 }
 
@@ -374,7 +379,7 @@ static void run_case(void) {
   vn_send_fail = 0;
   g_seen = 0;
   g_npend = 0;
-  g_cs = g_ss = NULL;
+  g_cs = g_ss = g_ss_dying = NULL;
   g_have_caddr = 0;
   memset(g_req, 0, sizeof(g_req));
   if (vntok < 13) {
@@ -427,6 +432,7 @@ static void run_case(void) {
 
   for (int i = 13; i < vntok; i++) {
     const char *op = vtok[i];
+    g_ss_dying = NULL;
     tg_emit("|%s", op);
     if (strcmp(op, "C") == 0) {
       if (g_cs) continue;
@@ -447,6 +453,8 @@ static void run_case(void) {
         tg_emit("a.nocs");
       } else {
         vn_register_client(g_cli, g_cs);
+        /* equal retransmission timeouts: the context's send queue keeps submission order */
+        coap_session_set_ack_random_factor(g_cs, (coap_fixed_point_t){1, 0});
         coap_address_copy(&g_caddr, &g_cs->addr_info.local);
         g_have_caddr = 1;
       }
@@ -527,12 +535,15 @@ static void run_case(void) {
     } else if (strcmp(op, "rel") == 0) {
       if (g_cs) {
         coap_session_t *s = g_cs;
-        vn_unregister_client(s);
-        /* the session object survives while in-flight messages reference it */
-        int last = s->ref == 1;
-        coap_session_release(s);
-        if (last) g_cs = NULL;
-        tg_emit("a.rel:%d", last);
+        /* while in-flight messages reference the session the library would free it later, at a
+         * moment this driver cannot see: release only when ours is the last reference */
+        if (s->ref == 1) {
+          vn_unregister_client(s);
+          coap_session_release(s);
+          g_cs = NULL;
+          tg_emit("a.rel:1");
+        } else
+          tg_emit("a.rel:skip");
       }
     } else
       tg_emit("a.badop");
@@ -549,7 +560,7 @@ out:
   g_cli = NULL;
   if (g_srv) coap_free_context(g_srv);
   g_srv = NULL;
-  g_ss = NULL;
+  g_ss = g_ss_dying = NULL;
   scan_wire();
   tg_emit("a.hsok:%d:%d", tg_hs_success[0], tg_hs_success[1]);
   printf("%s\n", tg_tr ? tg_tr : "");
